@@ -901,6 +901,34 @@ def emit_bodies(out, names, outdir, raw=None):
     return changed
 
 
+def emit_rx(raw, outdir):
+    """the same function bodies in the control-flow language `Uom.Rx.Rx` (Model/Rx.lean)"""
+    import bodies
+    out, names = bodies.collect_rx(raw)
+    lines = ['import Uom.Model.Rx', '/-! GENERATED by translate/translate.py (site `bodies`, Rx form) — do not edit -/',
+             'namespace Uom.Gen.RxBody', 'open Uom.Rx', '']
+    for key, nparams, lean in out:
+        lines.append('def %s : FnDef := ⟨%d, %s⟩' % (key, nparams, lean))
+    lines.append('')
+    lines.append('/-! names: `code ↦ text`; the tables of paths and methods start with the well-known names of Model/Rx.lean -/')
+    pre = {'c': 'c_', 'm': 'm_', 'fld': 'fld_', 'op': 'op_', 'ty': 'ty_', 'meta': 'meta_'}
+    opn = {'+': 'add', '-': 'sub', '*': 'mul', '/': 'div', '%': 'rem', '<': 'lt', '<=': 'le', '>': 'gt', '>=': 'ge',
+           '==': 'eq', '!=': 'ne'}
+    used = set()
+    for tab, prefix in pre.items():
+        for text, code in names.tabs[tab].items():
+            shown = opn.get(text, text) if tab == 'op' else text
+            base = prefix + (re.sub(r'[^A-Za-z0-9]+', '_', shown).strip('_') or 'x')
+            if base in used:
+                base += '_%d' % code
+            used.add(base)
+            lines.append('/-- `%s` -/' % text.replace('-/', '- /'))
+            lines.append('def %s : Nat := %d' % (base, code))
+    lines.append('')
+    lines.append('end Uom.Gen.RxBody')
+    return write_if_changed(os.path.join(outdir, 'RxBodies.lean'), '\n'.join(lines) + '\n')
+
+
 def main():
     verif = os.environ.get('VERIF_DIR') or os.path.dirname(os.path.dirname(os.path.abspath(__file__)))
     repo = os.environ.get('UOM_REPO', '/repo')
@@ -939,6 +967,7 @@ def main():
         print('translator-broken:%s %s' % (ex.site, ex.msg))
         return 3
     changed += emit_bodies(bout, bnames, os.path.join(verif, 'lean', 'Uom', 'Gen'), braw)
+    changed += emit_rx(braw, os.path.join(verif, 'lean', 'Uom', 'Gen'))
     write_if_changed(os.path.join(verif, 'build', 'bodies.json'), json.dumps(braw, ensure_ascii=False, indent=0))
     t['bodies'] = len(bout)
     t['usr'] = dict(quantities=len(usr['quantities']), units=sum(len(q['units']) for q in usr['quantities']), added=len(usr['added']))
